@@ -21,7 +21,7 @@ from .common import cbool
 
 THEOREMS = [
     "model_meets_spec", "counts_correct", "reject_iff", "reject_reason_sound",
-    "no_reject_when_off", "callback_once_in_order", "call_styles_equal",
+    "no_reject_when_off", "callback_once_in_order", "call_styles_equal", "request_carries_bound_values",
     "rpc_binds_like_python_partial", "rpc_reject_refuted",
 ]
 
@@ -524,18 +524,19 @@ def structures_for_tier(ck):
     if thorough:
         for i, s in enumerate(s3):
             for j, t in enumerate(all_marks(s)):
-                out.append((t, "core+extra" if (i + j) % 8 == 0 else "core"))
+                out.append((t, "core+extra" if (i + j) % 16 == 0 else "core"))
         for s in shapes(4, 3):
             if canonical(s):
+                pick = rng.randrange(16)
                 for j, t in enumerate(all_marks(s)):
-                    out.append((t, "core" if j % 4 == 0 else "random:6"))
+                    out.append((t, "core" if j == pick else "random:3"))
         nrand = {5: 6000, 6: 6000}
     else:
         # 3 leaves: every shape once (seeded marking), part of the vector space each
         for s in s3:
             mask = rng.randrange(8)
-            out.append((instantiate(s, [mask >> i & 1 for i in range(3)]), "random:4"))
-        nrand = {4: 600, 5: 450, 6: 450}
+            out.append((instantiate(s, [mask >> i & 1 for i in range(3)]), "random:3"))
+        nrand = {4: 450, 5: 350, 6: 350}
     for n, cnt in sorted(nrand.items()):
         for _ in range(cnt):
             s = random_shape(rng, n, rng.choice([1, 2, 2, 3, 3]))
@@ -601,7 +602,12 @@ def run(ck):
         "unwrap off: the single dict/object is compared (as XML infoset) with the unwrapped call only for argument "
         "vectors that give every required parameter outside choices a value",
     ]
+    import time
+    phases = ck.extra.setdefault("phase_s", {})
+    t_ph = time.time()
     proof_ok = ck.prove(THEOREMS)
+    phases["proof"] = round(time.time() - t_ph, 1)
+    t_ph = time.time()
 
     # ------------------------------------------------------------------
     # 1. parse_args driven directly
@@ -610,6 +616,40 @@ def run(ck):
     cases, meta = [], []
     structs = structures_for_tier(ck)
     vec_cache = {}
+    parse_disagree = []
+    batch_no = [0]
+
+    def flush():
+        """Evaluate the accumulated cases in Coq (batches keep memory bounded in
+        the thorough tier)."""
+        if not cases:
+            return
+        if batch_no[0] == 0:
+            for i in (3, len(cases) // 2, len(cases) - 5):
+                if 0 <= i < len(cases):
+                    t, args, kw, extra, raw = meta[i]
+                    ck.sample({"structure": c_tree(t), "args": [pval(v) for v in args],
+                               "kwargs": [(pname(k), pval(v)) for k, v in kw], "extraArgumentErrors": extra,
+                               "parse_args": list(raw)})
+        res_p = ck.run_cases("parse%d" % batch_no[0], PRE, "pcase", ["(%s)" % c for c in cases],
+                             ["parse_agrees", "parse_spec_ok"], shard=400)
+        batch_no[0] += 1
+        spec_bad = set(res_p["parse_spec_ok"])
+        for i in sorted(spec_bad)[:50]:
+            t, args, kw, extra, raw = meta[i]
+            ck.failing_input(classify_parse_failure(t, args, kw, extra, raw),
+                             "parse_args on %s with args=%r kwargs=%r extra_parameter_errors=%r gives %r: not what "
+                             "the parameter structure implies" % (c_tree(t), [pval(v) for v in args],
+                                                                  [(pname(k), pval(v)) for k, v in kw], extra, raw),
+                             {"kind": "parse_args", "tree": t, "args": args, "kw": kw, "extra": extra,
+                              "impl": list(raw)})
+        for i in res_p["parse_agrees"]:
+            if i not in spec_bad and len(parse_disagree) < 5:
+                t, args, kw, extra, raw = meta[i]
+                parse_disagree.append({"tree": c_tree(t), "args": args, "kw": kw, "extra": extra, "impl": list(raw)})
+        del cases[:]
+        del meta[:]
+
     for t, mode in structs:
         n = len(flatten(t))
         if mode.startswith("random") and rng.random() < 0.15:
@@ -650,23 +690,12 @@ def run(ck):
                 ck.count("depth=%d" % dpt)
                 if choice:
                     ck.count("with-choice")
-    for i in (3, len(cases) // 2, len(cases) - 5):
-        if 0 <= i < len(cases):
-            t, args, kw, extra, raw = meta[i]
-            ck.sample({"structure": c_tree(t), "args": [pval(v) for v in args],
-                       "kwargs": [(pname(k), pval(v)) for k, v in kw], "extraArgumentErrors": extra,
-                       "parse_args": list(raw)})
-    res_p = ck.run_cases("parse", PRE, "pcase", ["(%s)" % c for c in cases],
-                         ["parse_agrees", "parse_spec_ok"], shard=400)
-    spec_bad = set(res_p["parse_spec_ok"])
-    for i in sorted(spec_bad)[:50]:
-        t, args, kw, extra, raw = meta[i]
-        ck.failing_input(classify_parse_failure(t, args, kw, extra, raw),
-                         "parse_args on %s with args=%r kwargs=%r extra_parameter_errors=%r gives %r: not what the "
-                         "parameter structure implies" % (c_tree(t), [pval(v) for v in args],
-                                                          [(pname(k), pval(v)) for k, v in kw], extra, raw),
-                         {"kind": "parse_args", "tree": t, "args": args, "kw": kw, "extra": extra, "impl": list(raw)})
-    parse_disagree = [i for i in res_p["parse_agrees"] if i not in spec_bad]
+        if len(cases) >= 60000:
+            flush()
+    flush()
+
+    phases["parse_args"] = round(time.time() - t_ph, 1)
+    t_ph = time.time()
 
     # ------------------------------------------------------------------
     # 2. real document/literal clients
@@ -715,7 +744,17 @@ def run(ck):
                                      "the call was refused (%s) but %d request(s) had already gone to the transport"
                                      % (r[1], r[2]),
                                      {"kind": "client", "tree": t, "named": named, "args": args, "kw": kw, "extra": extra})
-                ccases.append("mkCC %s %s %s %s %s %s" % (cbool(extra), ct, cp, c_values(args), c_kw(kw), cres))
+                body = []
+                if r[0] == "sent":
+                    try:
+                        first, kids = body_children(r[1])
+                        body = [(name_id(nm), None if tx in ("", None) else val_id(tx)) for nm, tx in kids]
+                        if first.name != "Wrapper":
+                            body = [(999, None)]
+                    except Exception:   # noqa
+                        body = [(999, None)]
+                ccases.append("mkCC %s %s %s %s %s %s %s" % (cbool(extra), ct, cp, c_values(args), c_kw(kw), cres,
+                                                             c_kw(body)))
                 cmeta.append((t, named, args, kw, extra, r[:2]))
                 ck.seen(("client", ct, tuple(args), tuple(kw), extra), nontrivial=True)
                 ck.count("client:%s" % (cres.strip("()").split(" ")[-1] if r[0] != "sent" else "sent")
@@ -780,7 +819,19 @@ def run(ck):
                 r = call_client(c0, rec0, list(a0), dict(k0))
                 cres = "CSent" if r[0] == "sent" else "(CErr %s)" % (
                     classify_message(r[1], name_id=nid0) if r[0] == "TypeError" else "ROther")
-                ccases.append("mkCC %s %s %s %s %s %s" % (cbool(extra), c_tree(full0), cp0, c_values(ia), c_kw(ik), cres))
+                body = []
+                if r[0] == "sent":
+                    # exactly one element named after the wrapper goes into the SOAP body; its
+                    # content is the caller's object (not compared here)
+                    try:
+                        root = sudsutil.expat_parse(r[1])
+                        els = root.find("Body").elements()
+                        given = ia[0] if ia else dict(ik).get(1)
+                        body = [(1, given)] if [e.name for e in els] == [wname] else [(999, None)]
+                    except Exception:   # noqa
+                        body = [(999, None)]
+                ccases.append("mkCC %s %s %s %s %s %s %s" % (cbool(extra), c_tree(full0), cp0, c_values(ia), c_kw(ik),
+                                                             cres, c_kw(body)))
                 cmeta.append((full0, named, ia, ik, extra, r[:2]))
                 ck.seen(("client0", si, tuple(ia), tuple(ik), extra), nontrivial=False)
                 ck.count("client:unwrap-off-arity")
@@ -803,6 +854,9 @@ def run(ck):
                                                   c_tree(t), extra, (r[0], r[1] if r[0] != "sent" else "request sent")),
                          {"kind": "client", "tree": t, "named": named, "args": args, "kw": kw, "extra": extra})
     client_disagree = [i for i in res_c["client_agrees"] if i not in cspec_bad]
+
+    phases["clients"] = round(time.time() - t_ph, 1)
+    t_ph = time.time()
 
     # ------------------------------------------------------------------
     # 3. rpc bindings (they do not use the argument parser)
@@ -869,6 +923,7 @@ def run(ck):
     res_r = ck.run_cases("rpc", PRE, "rcase", ["(%s)" % c for c in rcases], ["rpc_agrees"], shard=400) \
         if rcases else {"rpc_agrees": []}
     rpc_disagree = res_r["rpc_agrees"]
+    phases["rpc"] = round(time.time() - t_ph, 1)
 
     ck.rule = (
         "parse_args driven with mock ancestry objects: every structure with <= 2 parameters nested <= 3 deep "
@@ -897,13 +952,10 @@ def run(ck):
         ck.unproved("proof obligation of C08 no longer checks: " + ck.proof_log[-1500:],
                     {"theorems": THEOREMS, "log": ck.proof_log[-3000:]})
     if parse_disagree or client_disagree or rpc_disagree:
-        def show(i):
-            t, args, kw, extra, raw = meta[i]
-            return {"tree": c_tree(t), "args": args, "kw": kw, "extra": extra, "impl": list(raw)}
         ck.unproved("model/implementation correspondence of C08 no longer holds (the implementation meets the "
                     "executable spec on every generated input, but it is no longer the algorithm the theorems "
                     "are about)",
-                    {"parse_args": [show(i) for i in parse_disagree[:5]],
+                    {"parse_args": parse_disagree[:5],
                      "client": [repr(cmeta[i]) for i in client_disagree[:5]],
                      "rpc": [repr(rmeta[i]) for i in rpc_disagree[:5]]})
 
